@@ -678,7 +678,10 @@ class Inliner:
                             make = lambda e: []  # noqa: E731
                         elif isinstance(stmt, ast.Assign):
                             tgt = stmt.targets[0]
-                            make = lambda e: [ast.Assign(targets=[copy.deepcopy(tgt)], value=e if e is not None else ast.Constant(None), lineno=stmt.lineno)]  # noqa: E731
+                            def make(e, tgt=tgt):
+                                a_ = ast.Assign(targets=[copy.deepcopy(tgt)], value=e if e is not None else ast.Constant(None), lineno=stmt.lineno)
+                                a_._from_inlining = True  # `a, b = helper()` whose helper ends in `return x, y`: evaluated left to right either way
+                                return [a_]
                         else:
                             make = lambda e: [ast.Return(value=e, lineno=stmt.lineno)]  # noqa: E731
                         new_body = _replace_tail_returns(new_body, make)
@@ -854,8 +857,8 @@ def substitute_new_temporaries(fn, known_locals: set[str]) -> int:
                 st = block[i]
                 if isinstance(st, ast.Assign) and len(st.targets) == 1 and isinstance(st.targets[0], ast.Tuple) and isinstance(st.value, ast.Tuple) \
                         and len(st.targets[0].elts) == len(st.value.elts) and all(isinstance(t, ast.Name) for t in st.targets[0].elts) \
-                        and any(t.id not in known_locals for t in st.targets[0].elts) \
-                        and all(_pure(v) for v in st.value.elts) \
+                        and (any(t.id not in known_locals for t in st.targets[0].elts) or getattr(st, "_from_inlining", False)) \
+                        and (all(_pure(v) for v in st.value.elts) or getattr(st, "_from_inlining", False)) \
                         and not ({t.id for t in st.targets[0].elts} & {n.id for v in st.value.elts for n in ast.walk(v) if isinstance(n, ast.Name)}):
                     block[i:i + 1] = [ast.copy_location(ast.Assign(targets=[t], value=v), st) for t, v in zip(st.targets[0].elts, st.value.elts)]
                     i += len(st.value.elts)
